@@ -31,7 +31,10 @@ RULE = ("seeded inputs: arrays of 0..2000 (thorough: ..20000) events drawn as un
         "place, with and without active filters, ret_mask on/off, interleaved with filter changes "
         "- many to a different event set of the same size (manual swap, shifted index range) - "
         "and 'limit events'): every result must equal the undecorated pure function on the "
-        "currently specified selection and ds.filter.all that of a fresh dataset. distinct = distinct "
+        "currently specified selection and ds.filter.all that of a fresh dataset; a few LARGE inputs "
+        "(65537, 70001, 100000 events) requested as sequences of near-identical twins (one value "
+        "changed, two events swapped, an invalid value moved) through downsample_grid and "
+        "get_downsampled_scatter, each compared with the undecorated function. distinct = distinct "
         "(function, input, request, mode) with 0 < request < eligible (thinning really happens) "
         "or padding with invalid points.")
 TRUSTED_BASE = [
@@ -175,6 +178,97 @@ def gen_seq(rng, thorough):
             steps.append(["reset"])          # min/max keys survive reset_filter (O3)
             manual = [True] * n
     return {"fn": "seq", "a": [tok(x) for x in a], "b": [tok(x) for x in b], "steps": steps}
+
+
+BIG_SIZES = [65537, 70001, 100000]
+
+
+def gen_big(rng, size=None):
+    """a large input and near-identical twins of it (one value changed, two events swapped, an
+    invalid value moved elsewhere), requested one after the other with identical parameters.
+    The data are a pure function of `seed` (not stored element by element)."""
+    n = size or rng.choice(BIG_SIZES)
+    twins = []
+    for _ in range(rng.randint(3, 5)):
+        kind = rng.choice(["set", "swap", "move", "move"])
+        i, j = rng.randrange(n), rng.randrange(n)
+        if kind == "set":
+            twins.append(["set", rng.choice(["a", "b"]), i, tok(rng.uniform(-50, 50))])
+        elif kind == "swap":
+            twins.append(["swap", rng.choice(["a", "b"]), i, j])
+        else:
+            twins.append(["move", rng.randrange(8), j])      # the r-th invalid entry goes to j
+    return {"fn": "big", "a": [], "n": n, "seed": rng.randrange(10 ** 6),
+            "k": rng.choice([0, 1000, 3000, n // 2, n]), "ri": rng.random() < 0.6,
+            "twins": twins}
+
+
+def big_arrays(case):
+    rs = np.random.RandomState(case["seed"])
+    n = case["n"]
+    a = rs.normal(100, 20, n)
+    b = rs.normal(0.1, 0.02, n)
+    bad = rs.choice(n, size=8, replace=False)
+    a[bad[:5]] = np.nan
+    b[bad[5:7]] = np.inf
+    a[bad[7]] = -np.inf
+    out = [(a, b)]
+    for tw in case["twins"]:
+        a2, b2 = out[0][0].copy(), out[0][1].copy()
+        if tw[0] == "set":
+            (a2 if tw[1] == "a" else b2)[tw[2]] = untok(tw[3])
+        elif tw[0] == "swap":
+            arr = a2 if tw[1] == "a" else b2
+            arr[tw[2]], arr[tw[3]] = arr[tw[3]], arr[tw[2]]
+        else:
+            src = bad[tw[1]]
+            for arr in (a2, b2):
+                arr[src], arr[tw[2]] = arr[tw[2]], arr[src]
+        out.append((a2, b2))
+    out.append((out[0][0].copy(), out[0][1].copy()))       # and the original once more
+    return out
+
+
+def run_big(case, rec=None):
+    """every request must equal the undecorated function on ITS input, whatever was asked before"""
+    dclab = common.import_dclab()
+    from dclab import downsampling as so
+    _clear_memo()
+    fails = []
+    k, ri = case["k"], bool(case["ri"])
+    with np.errstate(all="ignore"):
+        variants = big_arrays(case)
+        for vi, (a, b) in enumerate(variants):
+            try:
+                _x, _y, want = so.downsample_grid.func(a.copy(), b.copy(), samples=k,
+                                                       remove_invalid=ri, ret_idx=True)
+                x, y, m = so.downsample_grid(a, b, samples=k, remove_invalid=ri, ret_idx=True)
+            except Exception as e:  # noqa
+                fails.append(f"variant {vi}: raised {e!r}"[:160])
+                break
+            if not _same(m, want):
+                fails.append(f"variant {vi}: downsample_grid selects {int(np.sum(m))} events that "
+                             f"differ from the selection of the undecorated function "
+                             f"({int(np.sum(np.asarray(m) != np.asarray(want)))} positions)")
+            elif not _same(x, a[want]) or not _same(y, b[want]):
+                fails.append(f"variant {vi}: returned values are not input[mask]")
+            if ri and (np.asarray(m, dtype=bool) & ~(valid(a) & valid(b))).any():
+                fails.append(f"variant {vi}: invalid event returned although remove_invalid=True")
+        # dataset level: one dataset per variant, same request
+        for vi, (a, b) in enumerate(variants[:3]):
+            try:
+                ds = dclab.new_dataset({"area_um": a, "deform": b})
+                _x, _y, want = so.downsample_grid.func(a.copy(), b.copy(), samples=k,
+                                                       remove_invalid=ri, ret_idx=True)
+                x, y, m = ds.get_downsampled_scatter(downsample=k, remove_invalid=ri, ret_mask=True)
+            except Exception as e:  # noqa
+                fails.append(f"dataset {vi}: raised {e!r}"[:160])
+                break
+            if not _same(m, want) or not _same(x, a[want]) or not _same(y, b[want]):
+                fails.append(f"dataset {vi}: get_downsampled_scatter differs from the undecorated "
+                             f"function on this dataset's data")
+    _clear_memo()
+    return "ok " + str(len(variants)), fails
 
 
 def gen_case(rng, thorough, fn=None):
@@ -573,6 +667,8 @@ def run_seq(case, rec=None):
 
 def classify(case, aux=None):
     """('F16'|'F17'|None, thinning?, float cells agree with exact cells?)"""
+    if case["fn"] == "big":
+        return None, True, True
     if case["fn"] == "seq":
         reqs = [tuple(s[1:5]) for s in case["steps"] if s[0] == "scatter"]
         return None, len(reqs) != len(set(reqs)) or any(s[0] == "limit" for s in case["steps"]), True
@@ -636,6 +732,8 @@ def evaluate(case, rec=None):
     aux = None
     if case["fn"] == "seq":
         res["so"] = run_seq(case, rec)
+    elif case["fn"] == "big":
+        res["so"] = run_big(case, rec)
     elif case["fn"] in ("ds", "limit"):
         ans, fails, aux = run_ds(case, rec)
         res["so"] = (ans, fails)
@@ -677,6 +775,9 @@ def fails_spec(case):
 
 def shrink(case):
     """delta-debug the events (pairs) of a failing case; the request is re-tried smaller too"""
+    if case["fn"] == "big":
+        tw = common.ddmin(case["twins"], lambda t: fails_spec(dict(case, twins=t)), max_tests=20)
+        return dict(case, twins=tw)
     if case["fn"] == "seq":
         steps = common.ddmin(case["steps"], lambda st: fails_spec(dict(case, steps=st)), max_tests=200)
         return dict(case, steps=steps)
@@ -749,6 +850,8 @@ def run(ctx):
     n_gen = ctx.n(1400, 9000)
     for _ in range(n_gen):
         cases.append(gen_case(ctx.rng, ctx.thorough))
+    for j in range(3 if not ctx.thorough else 12):        # a few large inputs with twins
+        cases.append(gen_big(ctx.rng, BIG_SIZES[j % 3]))
     _mod, src_problem = depyx_downsampling()
     if src_problem:
         ctx.violation("mirror", src_problem, {"correspondence": "de-cythonised downsampling.pyx",
@@ -778,14 +881,14 @@ def run(ctx):
     for c, (res, cls, thin, agree), slot in zip(cases, results, slots):
         ans_so, fails_so = res["so"]
         ctx.case((c["fn"], c["a"], c.get("b"), c.get("k"), c.get("ri"), c.get("excl"), c.get("xs"),
-                  c.get("ys"), c.get("steps")), nontrivial=bool(thin),
-                 sample={"fn": c["fn"], "n": len(c["a"]), "k": c.get("k"),
+                  c.get("ys"), c.get("steps"), c.get("seed"), c.get("twins")), nontrivial=bool(thin),
+                 sample={"fn": c["fn"], "n": c.get("n", len(c["a"])), "k": c.get("k"),
                          "remove_invalid": c.get("ri"), "steps": (c.get("steps") or [])[:6],
                          "answer": ans_so[:60]} if thin else None)
         if c["fn"] == "seq":
             ctx.stat("seq_steps", len(c["steps"]))
         ctx.stat("fn=" + c["fn"])
-        ctx.stat("events", len(c["a"]))
+        ctx.stat("events", c.get("n", len(c["a"])))
         ctx.stat("answer=" + ans_so.split(" ")[0])
         if cls:
             ctx.stat("class=" + cls)
